@@ -160,7 +160,10 @@ def run_one(ch, cfg):
             arm["fired"] = arm["kind"]
             return arm["kind"]
         return None
-    w = World(ch, v1=v1, fault_fn=fault_fn)
+    # per lifetime: a device that asks for whatever sizes it likes, or (one in sixteen) for 1..3 bytes at a
+    # time throughout - a legal pattern that turns long parts into thousands of messages
+    tiny = ch.draw(16, "device.tiny-chunks") == 1
+    w = World(ch, v1=v1, fault_fn=fault_fn, device_cfg={"chunk_regime": "tiny"} if tiny else None)
     w.arm = arm
     viol = []
     w.bring_up()
@@ -217,6 +220,7 @@ def _one_request(w, ch, cfg, v1, viol):
         arm["at"] = w.link.index + ch.draw(30, "link-fault.at")
         arm["kind"] = ["timeout_after", "timeout_before", "read_err_after", "read_err_before",
                        "write_err"][ch.draw(5, "link-fault.kind")]
+    t0 = len(w.link.transport)
     rep, exc = w.request(req)
     fired = arm.get("fired")
     arm.pop("at", None)
@@ -241,6 +245,16 @@ def _one_request(w, ch, cfg, v1, viol):
             complete = False
     else:
         complete = False
+    # nothing dropped or truncated: without a link fault, a device that kept asking (no early stop, no
+    # error status) ends up holding every part - however many messages that takes
+    refused = any(e[0] == "xchg" and len(e) >= 5 and e[-1] != "9000" for e in w.link.transport[t0:])
+    early = any(v[0] == "early" for v in parts.values())
+    if st is not None and st.get("k") == "sign" and st["auth"] and not complete and not fired \
+            and not refused and not early and exp["path"] == st["path"]:
+        viol.append(("relay/incomplete", "device holds %s; it never refused or stopped early, the link "
+                     "never failed; reply %r" % (
+                         {n_: (len(st["parts"][n_].got) if n_ in st["parts"] else None, len(exp[n_]))
+                          for n_ in ("tx", "receipt", "merkle")}, rep)))
     if exc is not None:
         viol.append(("reply/exception", "%s: %s" % (type(exc).__name__, exc)))
     if not isinstance(rep, dict) or not isinstance(rep.get("errorcode"), int) \
